@@ -46,6 +46,8 @@ template <class T> static void run_T(Choice &c, Ctx &cx)
     ilu_set_default_options(&e.so);
     apply_opts(o, e.so); apply_ilu(io, e.so); e.so.IterRefine = NOREFINE;
     if (o.colperm == MY_PERMC) e.perm_c = o.my_perm_c;
+    e.ilu = true;
+    if (cx.is_known("F-ILU") && ilu_probe_breakdown(e)) { cx.exclude("F-ILU"); cx.label("F-ILU:perm-incomplete"); vf_purge(); return; }
     e.bind();
     bool aborted = e.call();
     if (aborted) {
